@@ -93,8 +93,10 @@ def rotation_matrix(alpha, beta, gamma, radians = True):
 
 def transform_cartesian_to_spherical(x_y_z):
     x, y, z = x_y_z
-    r = np.sqrt(x*x + y*y + z*z)
-    theta = np.arctan2(np.sqrt(x**2 + y**2), z)
+    # (hypot: the squares overflow / underflow long before the lengths do)
+    rho = np.hypot(x, y)
+    r = np.hypot(rho, z)
+    theta = np.arctan2(rho, z)
     phi = np.arctan2(y, x) % (2*np.pi)
     return np.array([r, theta, phi])
 
@@ -109,7 +111,7 @@ def transform_spherical_to_cartesian(r_theta_phi):
 
 def transform_cartesian_to_cylindrical(x_y_z):
     x, y, z = x_y_z
-    rho = np.sqrt(x**2 + y**2)
+    rho = np.hypot(x, y)
     phi = np.arctan2(y, x) % (2*np.pi)
     z = (np.full(rho.size, z) if np.size(z) == 1 else z)
     return np.array([rho, phi, z])
@@ -125,16 +127,16 @@ def transform_cylindrical_to_cartesian(rho_phi_z):
 
 def transform_cylindrical_to_spherical(rho_phi_z):
     rho, phi, z = rho_phi_z
-    r = np.sqrt(rho**2 + z**2)
+    r = np.hypot(rho, z)
     theta = np.arctan2(rho, z)
-    return np.array([r, theta, phi])
+    return np.array([r, theta, phi % (2*np.pi)])
 
 
 def transform_spherical_to_cylindrical(r_theta_phi):
     r, theta, phi = r_theta_phi
     rho = r * np.sin(theta)
     z = r * np.cos(theta)
-    return np.array([rho, phi, z])
+    return np.array([rho, phi % (2*np.pi), z])
 
 
 def keep_in_same_coordinates(coords): return np.array(coords)
